@@ -93,6 +93,14 @@ def all_seqs(alphabet, maxlen):
     return out
 
 
+def actions_from_prints(ctx, module, r):
+    """Vacuity guard input without -coverage: the MC spec prints <<"ACTION", name>> when an action is taken."""
+    import re
+    for m in re.finditer(r'<<"ACTION", "(\w+)">>', r.out):
+        key = "%s.%s" % (module, m.group(1))
+        ctx.coverage_actions[key] = ctx.coverage_actions.get(key, 0) + 1
+
+
 # --------------------------------------------------------------------------- attribution
 
 def attribute(ctx, module, scenarios, run_scn, features, neutralise, fp_of, context_of, describe, max_scn=400):
